@@ -133,7 +133,6 @@ class CFGBuilder(AstVisitor[BB | None]):
     def visit_stmts(self, nodes: list[ast.stmt], bb: BB, jumps: Jumps) -> BB | None:
         prev_bb = bb
         bb_opt: BB | None = bb
-        next_functional = False
         for node in nodes:
             # If the previous statement jumped, then all following statements are
             # unreachable. Just create a new dummy BB and keep going so we can still
@@ -142,15 +141,11 @@ class CFGBuilder(AstVisitor[BB | None]):
                 bb_opt = self.cfg.new_bb()
                 self.cfg.dummy_link(prev_bb, bb_opt)
             if is_functional_annotation(node):
-                next_functional = True
-                continue
-
-            if next_functional:
-                # TODO: This should be an assertion that the Hugr can be un-flattened
-                raise NotImplementedError
-                next_functional = False
-            else:
-                prev_bb, bb_opt = bb_opt, self.visit(node, bb_opt, jumps)
+                # TODO: Check that the Hugr of the next statement can be un-flattened
+                raise GuppyError(
+                    UnsupportedError(node, "The `functional` pseudo-decorator", True)
+                )
+            prev_bb, bb_opt = bb_opt, self.visit(node, bb_opt, jumps)
         return bb_opt
 
     def _build_node_value(self, node: BBStatement, bb: BB) -> BB:
